@@ -33,7 +33,7 @@ COMPONENTS = {"real": ["setigen.voltage (Antenna, MultiAntennaArray, DataStream,
 ASSUMPTIONS = ["the antenna voltage stream is what get_samples returned (C10/C15 judge the antenna itself)",
                "+-1 tolerated iff the reference pre-rounding value is within 1e-7 of a rounding boundary (FFT vs direct DFT)",
                "a run whose digitiser input sits within 1e-9 of a rounding boundary is not value-judged (counted as tie)"]
-PROBES = ["predecessor_in_same_process", "predecessor_same_coefficients_other_split", "last_subblock_shorter", "num_subblocks_adjusted", "subblocks_exceed_windows", "multi_file_last_partial",
+PROBES = ["num_subblocks_reassigned_between_recordings", "predecessor_in_same_process", "predecessor_same_coefficients_other_split", "last_subblock_shorter", "num_subblocks_adjusted", "subblocks_exceed_windows", "multi_file_last_partial",
           "retry_after_fault", "partition_twin_compared", "collect_vs_record", "four_bit", "array_source",
           "stats_refresh_mid_recording", "retry_over_leftover_files"]
 
@@ -62,6 +62,8 @@ def generate(rng, tier):
         ops.append(op)
         if rng.random() < 0.15:
             ops.append({"op": "rebuild"})
+        elif rng.random() < 0.2:
+            ops.append({"op": "set_subblocks", "n": rng.randint(1, be["W"] + 2)})
     if rng.random() < 0.3:
         ops.append({"op": "collect", "blocks": rng.choice([1, 2, 3]), "digitize": rng.random() < 0.7})
     sc = {"seams": {"clock_origin": 1.7e9 + rng.randrange(10 ** 6), "clock_jitter_seed": rng.randrange(1 << 20),
@@ -290,6 +292,11 @@ def execute(sc, ctx):
                     ctx.hit("retry_after_fault")
                 last_fault = False
             nrec += 1
+        elif op["op"] == "set_subblocks":
+            # the documented memory knob, re-assigned on a backend that has already recorded
+            backend.num_subblocks = W._icast(el)(op["n"])
+            ctx.hit("num_subblocks_reassigned_between_recordings")
+            ctx.event("set_subblocks", op["n"])
         elif op["op"] == "rebuild":
             antenna = W.build_antenna(ant)
             log = W.RequestLog(antenna, ctx)
